@@ -418,6 +418,9 @@ theorem C12_toctou_not_full : ¬ C12_full (asFound none) := by
   have := ((h d16Schedule _ hs).1 0 _ rfl (by decide)).2 { id := 7, st := .done false, dispOpen := true } (by decide)
   simp at this
 
+/-- with the repaired `CloseIdles` the D16 schedule is not a run: `ciClose` is never enabled -/
+example : run (repaired none) d16Schedule = none := by rfl
+
 /-- **The atomicity hypothesis alone is not enough**: even if `CloseIdles` loaded and closed in one
 step, a request that `Read` has returned and `handleConn` has not yet counted is lost, because the
 idle stamp it relies on is taken BEFORE the blocking `Read`: same schedule, atomic close. The request
